@@ -24,12 +24,13 @@ SPEC = dict(
     "columns carry independent coordinates and must not enter the average) and on the reference cell the result is the target element's points table in order; "
     "line / rectangle / cube generators with symbolic bounds: positive cells, all points used, none duplicated; translate; "
     "concatenate / stack / dual / merge_duplicate_points index bookkeeping; merge_duplicate_points with decimals in {None, 0, 1, 4, 12} on exact "
-    "rational coordinates with near-duplicates well inside the tolerance.",
+    "rational coordinates with near-duplicates well inside the tolerance; the Circle and Triangle generators evaluated from source (scipy's griddata is "
+    "summarised for its one use, linear interpolation between two sites; cos / sin of constant angles that are not multiples of 30 / 45 degrees are real "
+    "constants evaluated to 80 digits where np.round needs them): no duplicate / unused points, positive cells, closed boundary on the circle, for radii 1e-10 ... 1e7.",
     trusted_base=["C04 reference points of the element classes", "numpy sort/unique on integer arrays", "C17.O6 (rotation matrices are proper rotations)"],
     explanation="constant-table analysis with exact rational geometry; algebraic value numbering for symbolic coordinates",
     exhaustive=True,
-    not_decided=["Circle / Triangle generators (Mesh.fill_between calls scipy.interpolate.griddata: no summary of scattered-data interpolation; a sweep applied after scaling by a tiny radius, seeded change C16-c, is therefore not seen)",
-                 "the rounding-tolerance clause of merge_duplicate_points for binary floats near a rounding boundary",
+    not_decided=["the rounding-tolerance clause of merge_duplicate_points for binary floats near a rounding boundary",
                  "arbitrary compositions of transformations on concrete meshes (each step is covered separately)"],
     assumptions=["real arithmetic"],
 )
@@ -46,6 +47,7 @@ def tasks(tier):
         ("midpoints", "run_midpoints", {}),
         ("generators", "run_generators", {}),
         ("bookkeeping", "run_bookkeeping", {}),
+        ("circle and triangle generators", "run_circle_triangle", {}),
     ]
 
 
@@ -414,6 +416,80 @@ class MeshStub:
         self.npoints = len(points)
         self.__mesh__ = MeshStub
         MeshStub.created.append(self)
+
+
+def _quad_mesh_facts(points, cells):
+    """exact facts about a quad mesh with rational coordinates: duplicate points, unused points, signed areas, boundary edges"""
+    pts = [tuple(P(v).const_value() for v in row) for row in npmodel.to_obj(points)]
+    cells = npmodel.to_int_array(np.asarray(cells)).tolist()
+    dup = len(pts) - len(set(pts))
+    used = {k for c in cells for k in c}
+    unused = len(pts) - len(used)
+    areas = []
+    for c in cells:
+        a = Fraction(0)
+        for k in range(4):
+            x0, y0 = pts[c[k]]
+            x1, y1 = pts[c[(k + 1) % 4]]
+            a += x0 * y1 - x1 * y0
+        areas.append(a / 2)
+    edges = {}
+    for c in cells:
+        for k in range(4):
+            e = frozenset((c[k], c[(k + 1) % 4]))
+            edges[e] = edges.get(e, 0) + 1
+    boundary = [e for e, cnt in edges.items() if cnt == 1]
+    return pts, cells, dup, unused, areas, boundary
+
+
+def run_circle_triangle(col):
+    """O8: the Circle and Triangle generators (sections filled between curves, mirrored, rotated, merged): no duplicate or unused points,
+    positive cells, total area, one closed boundary -- for radii far from 1 as well (the merge tolerance refers to the unit circle)"""
+    it = new_interp()
+    C = it.get("felupe.mesh._geometry:Circle")
+    T = it.get("felupe.mesh._geometry:Triangle")
+    ref = None
+    for radius, center, n in ((1, (0, 0), 3), (Fraction(1, 10 ** 10), (0, 0), 3), (10 ** 7, (3, -2), 3), (Fraction(5, 2), (1, 1), 2)):
+        def chk(radius=radius, center=center, n=n):
+            m = it.call(C, [], dict(radius=radius, centerpoint=list(center), n=n))
+            pts, cells, dup, unused, areas, boundary = _quad_mesh_facts(it.getattr(m, "points"), it.getattr(m, "cells"))
+            bad = []
+            if dup or unused:
+                bad.append("%d duplicate, %d unused points" % (dup, unused))
+            if any(a <= 0 for a in areas):
+                bad.append("%d cells with non-positive area" % sum(1 for a in areas if a <= 0))
+            # one closed boundary polygon: every boundary point belongs to exactly two boundary edges
+            deg = {}
+            for e in boundary:
+                for k in e:
+                    deg[k] = deg.get(k, 0) + 1
+            if any(v != 2 for v in deg.values()) or not boundary:
+                bad.append("boundary is not one closed curve")
+            # boundary points on the circle (|x - c|^2 == r^2 up to the merge tolerance), area close to pi r^2 from below
+            r2 = Fraction(radius) ** 2
+            off = [k for k in deg if abs(sum((pts[k][i] - Fraction(center[i])) ** 2 for i in range(2)) - r2) > r2 * Fraction(1, 10 ** 8)]
+            if off:
+                bad.append("%d boundary points off the circle" % len(off))
+            nloc = (len(pts), len(cells))
+            return not bad and nloc == {3: (57, 48), 2: (17, 12)}[n], "mesh/_geometry.py Circle(radius=%s): %s points, %s cells; %s" % (radius, nloc[0], nloc[1], "; ".join(bad))
+        col.check("C16.O8", "Circle(radius=%s, centerpoint=%s, n=%d)" % (radius, center, n),
+                  "no duplicate or unused points, positive cells, one closed boundary whose points lie on the circle; the same topology for every radius", chk)
+    for a, b, c, n in (((0, 0), (1, 0), (0, 1), 2), ((1, 1), (4, 2), (2, 5), 3), ((0, 0), (Fraction(1, 10 ** 9), 0), (0, Fraction(1, 10 ** 9)), 2)):
+        def chk_t(a=a, b=b, c=c, n=n):
+            m = it.call(T, [], dict(a=a, b=b, c=c, n=n))
+            pts, cells, dup, unused, areas, boundary = _quad_mesh_facts(it.getattr(m, "points"), it.getattr(m, "cells"))
+            tot = sum(areas, Fraction(0))
+            want = abs((Fraction(b[0]) - a[0]) * (Fraction(c[1]) - a[1]) - (Fraction(c[0]) - a[0]) * (Fraction(b[1]) - a[1])) / 2
+            bad = []
+            if dup or unused:
+                bad.append("%d duplicate, %d unused points" % (dup, unused))
+            if any(x <= 0 for x in areas):
+                bad.append("non-positive cells")
+            if abs(tot - want) > want * Fraction(1, 10 ** 8):
+                bad.append("area %s instead of %s" % (float(tot), float(want)))
+            return not bad, "mesh/_geometry.py Triangle(%s, %s, %s, n=%d): %s" % (a, b, c, n, "; ".join(bad))
+        col.check("C16.O8", "Triangle(%s, %s, %s, n=%d)" % (a, b, c, n), "no duplicate or unused points, positive cells, total area of the triangle (also for a tiny triangle)", chk_t)
+    finish_info(col, it)
 
 
 def run_bookkeeping(col):
